@@ -417,6 +417,12 @@ fn flatten(steps: Vec<Step>, mode: u8, v: (f64, f64, bool)) -> Vec<Step> {
     let mut f = |o: (f64, f64, bool)| -> (f64, f64, bool) {
         k += 1;
         let j = if mode == 2 { 1.0 + (k.wrapping_mul(2654435761u32) >> 24) as f64 * (2f64).powi(-44) } else { 1.0 };
+        if mode == 3 {
+            // every observation huge (1e23 … 7e30): the squares of the reciprocals underflow in f32, the sums of squares
+            // are of order 1e60 in f64 (inf in f32 is avoided: |x| < 1e31, and pairs are kept apart by a factor 2)
+            let h = 1e23 * (1.0 + (k % 7) as f64) * if k % 3 == 0 { 1e7 } else { 1.0 };
+            return (h, h * 0.5, o.2);
+        }
         (v.0 * j, v.1 * j, o.2)
     };
     steps
@@ -433,8 +439,14 @@ fn flatten(steps: Vec<Step>, mode: u8, v: (f64, f64, bool)) -> Vec<Step> {
         .collect()
 }
 fn case_strategy() -> impl Strategy<Value = Case> {
-    (0usize..TYPES.len(), prop::collection::vec(step(), 1..12), prop::collection::vec(step(), 0..8), prop::collection::vec((0u8..3, level()), 1..4), prop_oneof![6 => Just(0u8), 1 => Just(1u8), 1 => Just(2u8)], obs_value(), any::<bool>())
-        .prop_map(|(t, prefix, suffix, levels, mode, v, also_suffix)| Case { ty: TYPES[t].to_string(), prefix: flatten(prefix, mode, v), suffix: if also_suffix { flatten(suffix, mode, v) } else { suffix }, levels })
+    (0usize..TYPES.len(), prop::collection::vec(step(), 1..12), prop::collection::vec(step(), 0..8), prop::collection::vec((0u8..3, level()), 1..4), prop_oneof![12 => Just(0u8), 2 => Just(1u8), 2 => Just(2u8), 1 => Just(3u8)], obs_value(), any::<bool>())
+        .prop_map(|(t, prefix, suffix, levels, mode, v, also_suffix)| {
+            // huge observations only for the types that transform them first (their squares overflow an f32 register of
+            // the arithmetic mean to inf, which JSON cannot carry — a property of the format, not of the crate)
+            let mode = if mode == 3 && !(TYPES[t].starts_with("Harmonic") || TYPES[t].starts_with("Geometric")) { 0 } else { mode };
+            let also_suffix = also_suffix || mode == 3;
+            Case { ty: TYPES[t].to_string(), prefix: flatten(prefix, mode, v), suffix: if also_suffix { flatten(suffix, mode, v) } else { suffix }, levels }
+        })
 }
 fn value_strategy() -> impl Strategy<Value = ValueCase> {
     let lv = prop_oneof![level().prop_map(|l| l.to_bits()), (1u64..(1u64 << 52)).prop_map(|m| (m as f64 / (1u64 << 52) as f64).to_bits()), Just(5e-324f64.to_bits()), Just(0.9999999999999999f64.to_bits())];
